@@ -170,7 +170,9 @@ func buildTree(sc *scenario) {
 			PreHash:    parent.Header.Hash,
 			PreTime:    parent.Header.CurTime,
 			CurTime:    parent.Header.CurTime.Add(time.Second),
-			ProveValue: big.NewInt(int64(bs.Pv)),
+			// the model's prove values 1 < 2 < ... as numbers whose byte encodings have different
+			// lengths and compare the other way round byte-wise (255 = ff, 256 = 0100, 257 = 0101 ...)
+			ProveValue: big.NewInt(254 + int64(bs.Pv)),
 			TotalQN:    uint64(bs.Tqn),
 			Castor:     castor,
 			GroupId:    genesisGroup.Id,
